@@ -332,6 +332,11 @@ Definition service_verify_queries (c : cache) (inst : bytes) (at_ : option N)
              (c_nsec c) (c_sub c), qs)
   end.
 
+(* DnsCache::has_ptr_to (fix 48ec5c0): some cached PTR record, under any key, expired or not, whose
+   alias is exactly the instance *)
+Definition has_ptr_to (c : cache) (inst : bytes) : bool :=
+  existsb (fun kb => existsb (fun p => beq (alias_of (e_rr p)) inst) (snd kb)) (c_ptr c).
+
 (* ---- remove_service_type ------------------------------------------------------------------------- *)
 
 Definition all_srv_hosts_lower (srv : bmap) : list bytes :=
